@@ -510,6 +510,21 @@ impl<K: El, V: El> Mon<K, V> {
                     }
                 }
                 self.full_check("C11", &[], "clone_from (source side)")?;
+                let mut dest = dest;
+                if dest.verif_state().old.is_some() {
+                    // (see `clones`: a product left mid-resize must still take an insertion)
+                    let kv = self.next_fresh();
+                    let (kk, v) = (K::mk(kv), V::mk(kv));
+                    let dm = &mut dest;
+                    if let Err(p) = catch(|| {
+                        dm.insert(kk, v);
+                    }) {
+                        rethrow_fuse(&p);
+                        std::mem::forget(dest);
+                        return Err(Viol { extra: Vec::new(), prop: "C11", more: &["C01"], msg: format!("the product of clone_from cannot take an insertion: {p}") });
+                    }
+                    dest.remove(&K::mk(kv));
+                }
                 for s in self.model.values() {
                     out.expect_dropped.push(s.kid);
                     out.expect_dropped.push(s.vid);
